@@ -67,7 +67,6 @@ class ModeAggregator(Aggregator):
 
         # Categorical probabilities (n_predictors, n_samples, ..., n_classes)
         y_proba_models = self._np.stack(y, axis=0)
-        n_predictors = y_proba_models.shape[0]
         num_classes = y_proba_models.shape[-1]
 
         # Mode of the ensemble (n_samples, ...)
@@ -75,11 +74,9 @@ class ModeAggregator(Aggregator):
 
         weighted_counts = self._np.zeros_like(y_proba_models, dtype=np.float64).sum(axis=0)
         eye_arr = np.eye(num_classes, dtype=np.float64)
-        for i in range(n_predictors):
-            if weights is None:
-                weighted_counts += eye_arr[y_mode_models[i]] / n_predictors
-            else:
-                weighted_counts += eye_arr[y_mode_models[i]] * weights[i]
+        # Weighted average of the one-hot modes of the predictors: the weights are normalised
+        # so that the counts of each sample sum to 1 whatever the scale of ``weights``
+        weighted_counts += np.average(eye_arr[y_mode_models], weights=weights, axis=0)
 
         y_mode_ensemble = weighted_counts.argmax(axis=-1)
         if is_masked:
